@@ -12,7 +12,7 @@ CONSTANT MaxLen
 VARIABLES ts, phase
 vars == <<ts, phase>>
 Init == ts = <<>> /\ phase = "gen"
-Next == \/ phase = "gen" /\ Len(ts) < MaxLen /\ \E t \in Templates : ts' = Append(ts, t) /\ phase' = "gen"
+Next == \/ phase = "gen" /\ Len(ts) < MaxLen /\ \E t \in Templates \cup {20} : ts' = Append(ts, t) /\ phase' = "gen"
         \/ phase = "gen" /\ phase' = "chk" /\ UNCHANGED ts
 Spec == Init /\ [][Next]_vars
 
@@ -28,8 +28,8 @@ Agree ==
       A1 == Assemble(prog, src, TRUE)
   IN
   \* C02: accepted exactly when well-formed; a rejection names a violated condition; debug symbols do not matter
-  /\ A0.ok = wf /\ A1.ok = wf
-  /\ ~wf => A0.err.kind \in ViolatedKindsI(prog, X, D) /\ A1.err.kind = A0.err.kind /\ A1.err.spans = A0.err.spans
+  /\ (wf => A0.ok) /\ (A0.ok => WellFormedHiI(prog, X, D)) /\ A1.ok = A0.ok
+  /\ ~A0.ok => A0.err.kind \in ViolatedKindsI(prog, X, D) /\ A1.err.kind = A0.err.kind /\ A1.err.spans = A0.err.spans
   \* C01: exactly the image, exactly the labels
   /\ wf => /\ ImageOfBlocks(A0.obj.blocks) = ImageSpecI(prog, X, D)
            /\ A1.obj.blocks = A0.obj.blocks
@@ -39,19 +39,19 @@ Agree ==
            /\ \A i \in 1..Len(A0.obj.blocks) : Len(A0.obj.blocks[i].w) > 0 /\ A0.obj.blocks[i].s + Len(A0.obj.blocks[i].w) <= 65024
            /\ \A i \in 1..(Len(A0.obj.blocks) - 1) : A0.obj.blocks[i].s + Len(A0.obj.blocks[i].w) <= A0.obj.blocks[i + 1].s
   \* C21: relocation entries; the symbol table survives iff debug or an external is declared
-  /\ wf => /\ RelOfObj(A1.obj.rel) = RelSpecI(prog, X, D)
-           /\ A0.obj.sym = (\E d \in D : d[3])
+  /\ wf => /\ RelSpecLoI(prog, X, D) \subseteq RelOfObj(A1.obj.rel) /\ RelOfObj(A1.obj.rel) \subseteq RelSpecI(prog, X, D)
+           /\ ((\E d \in D : d[3] /\ AllExtKey(D, d[1])) => A0.obj.sym) /\ (A0.obj.sym => \E d \in D : d[3])
            /\ A0.obj.sym => A0.obj.labels = A1.obj.labels /\ A0.obj.rel = A1.obj.rel
-           /\ (RelSpecI(prog, X, D) # {}) => Unresolved(A0.obj) /\ Unresolved(A1.obj)
+           /\ (RelSpecLoI(prog, X, D) # {}) => Unresolved(A0.obj) /\ Unresolved(A1.obj)
   \* C24: the line table, one-to-one
   /\ wf => /\ A1.obj.lines = LineSpecI(prog, X, NlIdx(src))
            /\ \A p, q \in A1.obj.lines : (p[1] = q[1] \/ p[2] = q[2]) => p = q
            /\ A0.obj.lines = {}
   \* C26: error spans: non-empty, inside the source, label errors spell an offending label
-  /\ ~wf => /\ Len(A0.err.spans) >= 1
-            /\ \A j \in 1..Len(A0.err.spans) : 0 <= A0.err.spans[j][1] /\ A0.err.spans[j][1] <= A0.err.spans[j][2] /\ A0.err.spans[j][2] <= Len(src)
-            /\ (IsLabelKind(A0.err.kind) /\ A0.err.kind # "UndetAddrLabel") => A0.err.lbl \in OffendingLabels(prog, X, D, A0.err.kind)
-            /\ A0.err.kind = "UndetAddrLabel" =>
-                  \E k \in 1..Len(prog) : ~OpenAt(X, k) /\ prog[k].labels # <<>>
-                                          /\ A0.err.spans = [i \in 1..Len(prog[k].labels) |-> <<prog[k].labels[i].s, prog[k].labels[i].e>>]
+  /\ ~A0.ok => /\ Len(A0.err.spans) >= 1
+               /\ \A j \in 1..Len(A0.err.spans) : 0 <= A0.err.spans[j][1] /\ A0.err.spans[j][1] <= A0.err.spans[j][2] /\ A0.err.spans[j][2] <= Len(src)
+               /\ (IsLabelKind(A0.err.kind) /\ A0.err.kind # "UndetAddrLabel") => A0.err.lbl \in OffendingLabels(prog, X, D, A0.err.kind)
+               /\ A0.err.kind = "UndetAddrLabel" =>
+                     \E k \in 1..Len(prog) : ~OpenAt(X, k) /\ prog[k].labels # <<>>
+                                             /\ A0.err.spans = [i \in 1..Len(prog[k].labels) |-> <<prog[k].labels[i].s, prog[k].labels[i].e>>]
 =============================================================================
